@@ -51,6 +51,11 @@ CHECKS = {
          "Configuration models (all documented keys, 0..4 hosts, 0..8 routes of every type incl. multi-pattern routes, proxy lists, size units in both cases, noise keys/sections) are rendered with random indentation, comments, blank lines, key order and include-file splitting nested to 3, in three layouts; parse_conf + Config::from_tree must succeed and equal the model field by field with file order and defaults. For each of nine single-fault mutant classes (missing { or }, missing value, bad number, bad enum, unknown unit, unterminated quote, out-of-range, non-ASCII at a random position, in the main or an included file) the loader must return an error that names the right file and line for syntax-level faults, and never panic or accept the file.",
          "Trusts the model-to-Config comparison and the printer (restricted to the documented syntax: exact `server {`, spaces between key and value, no `#` inside quoted values, no duplicate keys).",
          "DESIGN.md §5 C15"),
+ "C06": ("exploration",
+         "generated directory trees + generated/enumerated hostile request paths, canary-based confinement oracle and completeness oracle against the generated tree",
+         "For generated directory trees (nested directories, index files, extension-less / multi-dot / spaced / Unicode / %-containing names) with canary files placed next to the root, two levels up, in a prefix-named sibling and as an outside index.html, the handlers serve_dir (/* and /s/*), serve_as_file_path and the server's directory_handler (cache on/off) are called in-process with: every file by its path (200, exact bytes, Content-Type per an independent extension table), every directory with and without trailing slash (301 to slash form; index.html, else index.htm, else 404), random compositions of up to 5 hostile segments and a targeted grid of 32 400 traversal spellings. No response may contain canary bytes and every 200 body must be the content of a file inside the root.",
+         "Trusts the canary construction and the in-process call convention (uri = route prefix + path, as the router would dispatch). Symlinks excluded.",
+         "DESIGN.md §5 C06"),
 }
 
 NOT_YET = "check not built yet (work in progress; see DESIGN.md §5 for the intended design)"
